@@ -62,6 +62,11 @@ def configs(tier: str, seed: int, flavours=("default", "forget", "forest"), pack
     packs = packs or list(PACKS)
     out = []
     pats_ab = PATTERN_SETS_AB if tier == "thorough" else PATTERN_SETS_AB[:9]
+    if tier == "thorough":
+        # every set of one or two patterns of length <= 3 over {a,b} (the campaign then samples max_n configurations by seed)
+        words = ["".join(w) for n in (1, 2, 3) for w in itertools.product("ab", repeat=n)]
+        allsets = [[w] for w in words] + [[u, v] for u in words for v in words if u < v]
+        pats_ab = pats_ab + [p for p in allsets if p not in pats_ab]
     for pats in pats_ab:
         for pk in packs:
             for fl in flavours:
